@@ -43,4 +43,15 @@ Section Fuzzy.
       Some (firstn n w,
             map (fun i => nsub (nsub n1 (nth (i + d) w n0)) (nth i w n0)) (seq 0 n))
     else None.
+  (* shrink_clusters: both halves move by widths * ratio *)
+  Definition shrink (w : list N) (ratio : N) : list N :=
+    let d := Nat.div (length w) 2 in
+    let lo := firstn d w in
+    let hi := skipn d w in
+    let widths := vsub (vcompl hi) lo in
+    vadd lo (vscale ratio widths) ++ vadd hi (vscale ratio widths).
+  (* centre of the box in data coordinates (before de-normalisation): (lo + (1 - hi)) / 2 *)
+  Definition centre (w : list N) : list N :=
+    let d := Nat.div (length w) 2 in
+    map nhalf (vadd (firstn d w) (vcompl (skipn d w))).
 End Fuzzy.
